@@ -1,5 +1,6 @@
 //@include ../common/head.rs
 use vstd::std_specs::iter::IteratorSpec;
+global size_of usize == 8;
 //@include ../common/limitsort_sel.rs
 //@include body.rs
 //@include ../common/tail.rs
